@@ -158,8 +158,12 @@ Definition edns_post (req_has_opt : bool) (m : msg) : msg :=
           (filter (fun r => negb (is_opt r)) (m_ar m))
   else match first_opt (m_ar m) with
        | Some _ => m
-       | None => mkMsg (m_id m) (m_b2 m) (m_b3 m) (m_qs m) (m_an m) (m_ns m)
-                       (m_ar m ++ [RROpt empty_opt])
+       | None =>
+           (* response.opt(|_| Ok(())): fails (and is only logged) when the
+              stream target would pass 65535 octets *)
+           if 65535 <? mlen m + 11 then m
+           else mkMsg (m_id m) (m_b2 m) (m_b3 m) (m_qs m) (m_an m) (m_ns m)
+                      (m_ar m ++ [RROpt empty_opt])
        end.
 
 (* mandatory.rs truncate, the rebuild: header copied, questions pushed, the
